@@ -9,14 +9,14 @@ PROPS = {
     },
     "C12": {
         "suites": [("pure", "pattern"), ("pure", "lcs"), ("pure", "mdiff"), ("pure", "change"), ("gw", "reset")],
-        "theorems_carry": "Match never indexes out of range and, for every pattern of valid tokens and every name with non-empty tokens, decides token-wise wildcard matching (match_spec); a pattern is accepted iff its tokens are valid (parse_valid_iff), so match_spec holds for every accepted pattern; invalid patterns match nothing; the collection diff applies in range and yields the new collection for any table; equal content yields no event; the model diff applied by the change handler yields the fetched model key by key (modelDiff_applies)",
-        "correspondence_only": "the set of resources re-fetched and the events sent at gateway level (lockstep, profile reset)",
+        "theorems_carry": "Match never indexes out of range and, for every pattern of valid tokens and every name with non-empty tokens, decides token-wise wildcard matching (match_spec); a pattern is accepted iff its tokens are valid (parse_valid_iff), so match_spec holds for every accepted pattern; invalid patterns match nothing; the collection diff applies in range and yields the new collection for any table; equal content yields no event; the model diff applied by the change handler yields the fetched model key by key (modelDiff_applies); a system reset hands an entry to the re-fetch / access re-validation iff its name matches at least one listed pattern that parses as valid, i.e. token-wise wildcard matching (reset_selects_exactly, reset_selects_tokenwise over the forEachMatch function the model iterates); a pending re-fetch is not repeated (reset_once)",
+        "correspondence_only": "that the gateway's forEachMatch / handleResetResource are the modelled ones and the events sent at gateway level (lockstep, profile reset)",
         "assumptions": ["encoding/json round trip of add/remove payloads is not modelled (exercised by applying the real events through the real handlers)"],
     },
     "C14": {
         "suites": [("pure", "rid"), ("pure", "rpc"), ("pure", "path"), ("pure", "httppath"), ("gw", "mixed")],
-        "theorems_carry": "validator specs for all byte strings; {cid} expansion preserves validity; every subject of a dispatched WebSocket request is hygienic; no dot => no service traffic",
-        "correspondence_only": "HTTP path mapping (net/url), that the gateway builds subjects as the model's subjectsFor does",
+        "theorems_carry": "validator specs for all byte strings; {cid} expansion preserves validity; every subject of a dispatched WebSocket request is hygienic; no dot => no service traffic; for every HTTP method, path, query, prefix and method mapping every subject the handler's dispatch can cause is hygienic, invalid ones end in 404/405 without service traffic (http_dispatch_hygienic, unconditional)",
+        "correspondence_only": "net/url unescaping in front of the handler, that apiHandler dispatches as httpDispatch does (suite httppath) and that the gateway builds subjects as the model's subjectsFor does",
         "assumptions": ["rune iteration of IsValidRID equals the byte loop (tied by the 256-byte class table and exhaustive short strings)"],
     },
     "C17": {
@@ -33,15 +33,15 @@ PROPS = {
     },
 
     "C01": {
-        "suites": [("gw", "refs"), ("gw", "mixed"), ("gw", "query"), ("gw", "reset")],
+        "suites": [("gw", "refs"), ("gw", "mixed"), ("gw", "query"), ("gw", "reset"), ("pure", "lcs"), ("pure", "mdiff")],
         "theorems_carry": "the version-stamp mechanism: a subscriber added at any point that reads (value, version) at any later point and processes everything since ends at the resource's final value and version (snapshot_replay, for every stream and every pair of points); the gate and the cache's stamp/bump are the gateway model's own functions; legacy encoding of the four value kinds",
         "correspondence_only": "the composition over the whole gateway (every client copy equals the announced state at quiescence): lockstep of the Lean gateway model against the real gateway on every history, plus the reference-client/announced-state monitor. Known findings D1, D17 make the full statement false of the code.",
         "assumptions": ["service contract: an answer reflects every event published before it (the simulated service answers from its state at answer time)", "Go map iteration order is not modelled: histories avoid one connection holding two aliases of one cached resource; a disagreement must persist over 5 runs", "histories with throttles are run with monitors only (throttle slot order is a real race)"],
     },
     "C02": {
         "suites": [("gw", "refs"), ("gw", "churn"), ("gw", "order")],
-        "theorems_carry": "every state event the cache emits is applicable: change only on models, add/remove only on collections, index within the cached collection's bounds",
-        "correspondence_only": "the reference-graph half (no dangling reference, no stray event): lockstep of the collector model (tryDelete/Unsend/Dispose/populateResources mirrored as they are) and the reference-client monitor. Known findings D7, D9, D16, D18.",
+        "theorems_carry": "every state event the cache emits is applicable: change only on models, add/remove only on collections, index within the cached collection's bounds; every resource set is closed under references: for every connection state and reference graph (shared children, diamonds, cycles, self references, error children) the collection the model runs (populateF = populateResources) places, for every subscription it newly adds, all its references in the same set, as error placeholders in the same set, or finds them delivered earlier, and the set has an entry under each such resource id (resource_set_closed, resource_set_delivers)",
+        "correspondence_only": "what \"delivered earlier\" means over a whole history (the collector's bookkeeping; no stray event): lockstep of the collector model (tryDelete/Unsend/Dispose/populateResources mirrored as they are) and the reference-client monitor. Known findings D7, D9, D16, D18.",
         "assumptions": ["reference client keeps resources it still retains when they are delivered again", "resources delivered by a get are kept while other requests of that client are pending"],
     },
     "C03": {
@@ -52,13 +52,13 @@ PROPS = {
     },
     "C04": {
         "suites": [("gw", "access"), ("gw", "counts")],
-        "theorems_carry": "what a get grant is (no error and get=true; every error is a denial with that error), which verdicts are cached (result or accessDenied only)",
+        "theorems_carry": "what a get grant is (no error and get=true; every error is a denial with that error), which verdicts are cached (result or accessDenied only); over every history of answers and triggers the remembered verdict is the last stored answer and no trigger (token event, reaccess, matching reset) came after it (remembered_verdict_iff, the fold of the verdictStep the model applies)",
         "correspondence_only": "no data without a valid grant on every history: lockstep + grant monitor. Known finding D11 (deferred re-check after the hand-out).",
         "assumptions": ["an answer to a request issued before a trigger but arriving after it counts as valid (the code re-checks right after)"],
     },
     "C06": {
         "suites": [("gw", "access")],
-        "theorems_carry": "while a re-check queues events nothing is processed, afterwards all are released in arrival order; which verdicts revoke",
+        "theorems_carry": "while a re-check queues events nothing is processed, afterwards all are released in arrival order; which verdicts revoke; every trigger drops the remembered verdict and an unstored answer leaves none (trigger_drops_verdict)",
         "correspondence_only": "one re-request per trigger with the current token, unsubscribe event on denial: lockstep (state snapshot includes flags, queueFlag, cached verdict) + monitors. Known finding D8.",
         "assumptions": [],
     },
@@ -76,25 +76,25 @@ PROPS = {
     },
     "C09": {
         "suites": [("gw", "churn"), ("gw", "query"), ("gw", "mixed")],
-        "theorems_carry": "use-count bookkeeping under well-formed use: count >= 0, waiting for eviction iff count = 0, timerqueue.Add never on a queued element, a new user cancels the eviction, the last release schedules it",
+        "theorems_carry": "use-count bookkeeping under well-formed use: count >= 0, waiting for eviction iff count = 0, timerqueue.Add never on a queued element, a new user cancels the eviction, the last release schedules it; the one-step invariant lifted to every operation sequence of an entry (count_run); the eviction timer removes an entry iff it is queued and still unused and releases the event subscription iff it had one (evict_iff, used_entry_stays)",
         "correspondence_only": "that every user releases exactly once and subscribe precedes get: lockstep (count, mqSub in every snapshot, S/U/Q order) + monitors incl. gauges at drain. Known findings D4, D13.",
         "assumptions": ["eviction is fired by the harness (VerifFlushEvictions) instead of the 5 s timer"],
     },
     "C10": {
         "suites": [("gw", "access"), ("gw", "mixed")],
-        "theorems_carry": "{cid} expansion: identity without the tag, validity preserved with the connection's id; every payload starts with the requester's id and carries the token handed in",
+        "theorems_carry": "{cid} expansion: identity without the tag, validity preserved with the connection's id; every payload starts with the requester's id and carries the token handed in; a token reset addresses a connection iff it has a token id and the reset names it, never a connection without token id (token_reset_addresses_iff)",
         "correspondence_only": "that events, token events and token resets touch only the addressed connections: lockstep with 2-4 connections + frame scan for connection ids + payload cid/token monitor",
         "assumptions": ["connection ids are unique (xid)"],
     },
     "C11": {
         "suites": [("gw", "churn"), ("pure", "blocked"), ("gw", "throttle")],
-        "theorems_carry": "after dispose every item offered to the connection is refused and leaves the gateway state unchanged (for every gateway state)",
-        "correspondence_only": "release of exactly the connection's holdings: lockstep with disconnects at random steps + drain monitors. Known finding D4.",
+        "theorems_carry": "for every gateway state: closing a connection (the fold of closeSub the model runs as wsConn.dispose) marks it, empties its map, takes it out of the fan-out, disposes all its subscriptions, leaves every other connection untouched, changes no cache entry except for one unsubscribe item per subscription that held one of its resources, issues no request (disconnect_releases_exactly); the release item removes exactly that subscriber from exactly that resource and gives back one use (release_item_gives_back_one_use); closing twice is closing once; afterwards every item offered to the connection is refused and leaves the state unchanged (disposed_is_silent)",
+        "correspondence_only": "that the real dispose is the modelled one at every moment (lockstep with disconnects at random steps, blocked writer, throttled re-checks) + drain monitors. Known findings D4, D19.",
         "assumptions": [],
     },
     "C13": {
         "suites": [("gw", "query")],
-        "theorems_carry": "lock exclusion (no normal item while locked), one slot per answered query request, lock clears exactly when all slots are used, FIFO afterwards; the alias index of an entry (the pure functions the model's getResourceSubscription / processGetResponse / unregister are built from): after a get response names the normalised query, the raw query and the normalised one resolve to the same cached resource, other queries are unaffected, a query that resolves to nothing gets its own resource",
+        "theorems_carry": "lock exclusion (no normal item while locked), one slot per answered query request, lock clears exactly when all slots are used, FIFO afterwards; the alias index of an entry (the pure functions the model's getResourceSubscription / processGetResponse / unregister are built from): after a get response names the normalised query, the raw query and the normalised one resolve to the same cached resource, other queries are unaffected, a query that resolves to nothing gets its own resource; a query event takes one lock slot per cached query and asks exactly the loaded ones, each once with its own normalised query (query_event_plan)",
         "correspondence_only": "one request per cached normalised query, answers applied to that query's resource only, alias sharing: lockstep (queries/links/lock in every snapshot). Known finding D1.",
         "assumptions": ["one connection never holds two aliases of one normalised query (Go map order)"],
     },
